@@ -25,6 +25,16 @@ ASSUMPTIONS = [
 ] + c06.ASSUMPTIONS[:2]
 
 REAL_CASES = [('kundur/kundur_full.xlsx', 2.0, 3.0), ('ieee14/ieee14_fault.xlsx', 1.0, 1.6)]
+# further real cases, two cuts each (one before the disturbance, one inside the transient): a case whose discrete
+# device state (switched-shunt positions) has moved away from the input data when the snapshot is taken, and a case
+# whose disturbance is scripted in a perturbation file
+EXTRA_CASES = [('ieee14/ieee14_shuntsw.xlsx', 1.0, 3.0), ('kundur/kundur_full.xlsx#pert', 1.0, 2.0)]
+PERT_SRC = '''
+def pert(t, system):
+    # load step: +20 % conductance of the first PQ (constant impedance in TDS) from t = 1.0 s on
+    if t >= 1.0:
+        system.PQ.Req.v[0] = 1.2 * system.PQ.Ppf.v[0] / system.PQ.v0.v[0] ** 2
+'''
 
 
 def oracle_c14(sc, obs, single):
@@ -86,8 +96,18 @@ import andes
 andes.config_logger(stream_level=50)
 from andes.utils.snapshot import save_ss, load_ss
 mode, case, cut, tf, path = sys.argv[1], sys.argv[2], float(sys.argv[3]), float(sys.argv[4]), sys.argv[5]
+import os
+pert = None
+if case.endswith('#pert'):
+    # the disturbance is scripted in a perturbation file (a stateless function of t) instead of a Toggle
+    case = case[:-5]; pert = os.environ['C14_PERT']
+    # (the snapshot stores the user's function by reference: the folder of the perturbation file has to be importable
+    # in the process that loads it, as it is in the process that made it)
+    sys.path.insert(0, os.path.dirname(pert))
 def mk():
-    ss = andes.load(andes.get_case(case), no_output=True, default_config=True)
+    ss = andes.load(andes.get_case(case), no_output=True, default_config=True, pert=pert)
+    if pert:
+        ss.Toggle.u.v[:] = 0
     ss.PFlow.run(); ss.TDS.config.no_tqdm = 1; ss.TDS.config.criteria = 0
     return ss
 import io, contextlib
@@ -140,6 +160,13 @@ def real_runs(ctx, ncuts):
         while len(cuts) < ncuts:
             cuts.append(round(ctx.rng.uniform(0.2, tf - 0.05), ctx.rng.choice([1, 2, 4])))
         plan.append((case, tev, tf, cuts[:ncuts]))
+    pert_path = os.path.join(tmp, 'c14_pert_%d.py' % os.getpid())
+    with open(pert_path, 'w') as fh:
+        fh.write(PERT_SRC)
+    os.environ['C14_PERT'] = pert_path
+    extra = list(EXTRA_CASES) if ctx.thorough else [EXTRA_CASES[ctx.seed % len(EXTRA_CASES)], EXTRA_CASES[(ctx.seed + 1) % len(EXTRA_CASES)]]
+    for case, tev, tf in extra:
+        plan.append((case, tev, tf, [round(tev - ctx.rng.uniform(0.2, 0.6), 2), round(tev + ctx.rng.uniform(0.15, 0.6), 2)]))
     jobs = []
     for case, tev, tf, cuts in plan:
         jobs.append(('single', case, 0.0, tf, '-'))
